@@ -75,8 +75,8 @@ class TermCx:
             return t
         if "f" in e:
             if e.get("tuple") or e.get("adt") is None:
-                return simp(("field", t, None, str(e["f"])))
-            return simp(("field", t, e["adt"], e["n"]))
+                return self.some_map(simp(("field", t, None, str(e["f"]))))
+            return self.some_map(simp(("field", t, e["adt"], e["n"])))
         if "downcast" in e:
             return ("variant", t, e["downcast"])
         if "idx" in e:
@@ -86,6 +86,18 @@ class TermCx:
         if "subslice" in e:
             return ("subslice", t, tuple(e["subslice"]), e["from_end"])
         return ("proj", t, str(e))
+
+    def some_map(self, r):
+        """payload of `opt.map(|x| f(x))` when it is Some: f(payload of opt), for a branch-free closure"""
+        if r[0] == "some" and is_call(r[1], name="map") and "option::Option" in r[1][1] and len(r[1][2]) == 2 \
+                and r[1][2][1][0] == "closure" and self.depth < INLINE_DEPTH and self.inline:
+            clo = r[1][2][1]
+            cf = self.prog.fns.get(clo[1])
+            if cf is not None and cf.has_body and simple_wrapper(cf):
+                sub = {1: ("agg", "tuple", None, None, tuple((str(n), val) for n, val in enumerate(clo[2]))),
+                       2: ("some", r[1][2][0])}
+                return TermCx(self.prog, cf, sub, self.depth + 1, frames=self.frames + (("clo", clo[1]),)).local(0)
+        return r
 
     def local(self, l):
         if l in self.memo:
@@ -414,7 +426,7 @@ def subterms(t):
                                         yield from subterms(z)
 
 
-_HEADS = {"mut", "op", "vec", "arg", "const", "fnref", "field", "variant", "index", "cindex", "subslice", "proj", "loopvar", "updated",
+_HEADS = {"acc", "item", "mut", "op", "vec", "arg", "const", "fnref", "field", "variant", "index", "cindex", "subslice", "proj", "loopvar", "updated",
           "uninit", "phi", "cast", "bin", "un", "len", "discr", "agg", "closure", "repeat", "unknown", "callind",
           "iter", "try", "residual", "ok_or", "map_err", "call", "some", "ok", "errval"}
 
@@ -473,6 +485,10 @@ def fmt(t, depth=0):
     f = lambda x: fmt(x, depth + 1)
     if h == "arg":
         return "arg%d" % t[1]
+    if h == "acc":
+        return "ACC"
+    if h == "item":
+        return "ITEM"
     if h == "const":
         return str(t[2])
     if h == "field":
